@@ -398,7 +398,7 @@ pub fn execute_submit_batch(
     let new_pending_batch = Batch::new(
         batch.id + 1,
         Uint128::zero(),
-        env.block.time.seconds() + config.batch_period,
+        env.block.time.seconds().saturating_add(config.batch_period),
     );
 
     // Save new pending batch
@@ -440,7 +440,12 @@ pub fn execute_submit_batch(
     batch.expected_native_unstaked = Some(unbond_amount);
     batch.update_status(
         BatchStatus::Submitted,
-        Some(env.block.time.seconds() + config.native_chain_config.unbonding_period),
+        Some(
+            env.block
+                .time
+                .seconds()
+                .saturating_add(config.native_chain_config.unbonding_period),
+        ),
     );
 
     BATCHES.save(deps.storage, batch.id, &batch)?;
